@@ -10,6 +10,7 @@ CONSTANTS
  KeepT = {TRUE}
  MaxClock = 4
  MaxGen = 4
+ HbCoalesce = 0
  FixSubChange = TRUE
  FixHbRefresh = TRUE
  DevHbNoGen = FALSE
@@ -23,6 +24,11 @@ CONSTANTS
  DevNoLaggerDrop = FALSE
  DevNoExpire = FALSE
  DevLaggerSkippedOnExpiry = TRUE
+ DevRestoreSkipsExpired = FALSE
+ DevJoinPutFailDropsMember = FALSE
+ DevMalformedJoinGhost = FALSE
+ DevJoinNewSkipsLoad = FALSE
+ DevJoinIgnoresLoadError = FALSE
  DevSyncRefusesIdle = FALSE
  DevHbWriteUnlocked = FALSE
  DevCleanupWriteUnlocked = FALSE
